@@ -48,7 +48,10 @@ CHECKS = {
    note="take()/indexing with a cubed array, compute, eager store/to_zarr and scalar/array conversions are the documented triggers and are checked to be triggers.", ref="3/C16"),
  "C17": dict(level="exploration", technique="runtime monitoring: exception type and phase (build / plan / after executor entry, decided by a wrapping executor's entry counter) for recipes NumPy can evaluate",
    text="Generated expressions biased to unsupported corners are built, planned and executed; any exception must be ValueError/TypeError/NotImplementedError/IndexError raised before the executor is entered. Held = no other type and no mid-run failure on the runs listed, apart from the open known finding about zero-length dimensions (half of the budget cannot reach it).",
-   note="Fault-free runs only. Exceptions with no cubed frame during recipe construction are harness errors (inconclusive).", ref="3/C17"), "C19": dict(level="exploration", technique="runtime monitoring: differential outcomes (accepted / type+phase of refusal / values) of one recipe under resource-configuration variants, compared pairwise with the explicit-default variant, plus NumPy",
+   note="Fault-free runs only. Exceptions with no cubed frame during recipe construction are harness errors (inconclusive).", ref="3/C17"), "C18": dict(level="exploration", technique="runtime monitoring: every multi-array public entry point called with arrays whose Specs differ in exactly one field (both argument orders), outcome and returned plans inspected; icontract post-condition on convert_to_bytes against an exact Fraction parser; plan budgets compared with the Spec",
+   text="Entry points x 7 spec fields x 2 orders are enumerated completely every run (the table is cross-checked against signature introspection of the public namespaces); tens of thousands of size literals (realistic and extreme strata, malformed and non-whole ones) are parsed by the real code and by an exact reference.",
+   note="Entry-point enumeration is complete for the functions listed in the evidence; literal space is sampled. Functions allowed to accept (broadcast_arrays, meshgrid, take/index with an array) are checked not to combine both inputs in any returned plan.", ref="3/C18"),
+ "C19": dict(level="exploration", technique="runtime monitoring: differential outcomes (accepted / type+phase of refusal / values) of one recipe under resource-configuration variants, compared pairwise with the explicit-default variant, plus NumPy",
    text="Every generated expression is built and computed under the global default config (spec=None), an explicit equal Spec, another work_dir, an intermediate_store, compressor None/explicit, reserved_mem 0, executor named in the Spec and a larger allowed_mem; acceptance and bit-exact values must agree.",
    note="Allowed memory is ample everywhere (so admission never differs legitimately); machine-memory checks of the threads executor are kept satisfiable.", ref="3/C19"),
  "C20": dict(level="exploration", technique="runtime monitoring across processes: arrays built in a child process are shipped with cloudpickle and computed/combined in a receiver whose name counters are set to chosen values; NumPy oracle",
